@@ -101,8 +101,11 @@ type Conn struct {
 	exports    []*expent
 	exportID   idgen
 	imports    map[importID]*impent
-	embargoes  []*embargo
-	embargoID  idgen
+	// importGeneration is the generation of the newest importClient
+	// (see impent.generation).
+	importGeneration uint64
+	embargoes        []*embargo
+	embargoID        idgen
 }
 
 // Options specifies optional parameters for creating a Conn.
